@@ -607,6 +607,12 @@ func genPipe(r *rand.Rand) WL {
 		// a long backlog: thousands of values queued before the reader takes the first one
 		w.Writers = []int{4000 + r.IntN(3000)}
 		w.Reader = "late"
+		if r.IntN(80) == 0 {
+			// a very long backlog (tens of thousands, up to 2^17): "never blocks a writer on a slow reader" has
+			// no size in it, so a queue bound anywhere below that must show as a blocked writer
+			w.Writers = []int{1 << (14 + r.IntN(3))}
+			w.Writers[0] += 1 + r.IntN(w.Writers[0])
+		}
 	}
 	w.CloseOut = r.IntN(4) != 0
 	if w.Reader == "stop" {
@@ -619,6 +625,13 @@ func genPipe(r *rand.Rand) WL {
 }
 
 type pv struct{ W, I int }
+
+func shortPV(got []pv) string {
+	if len(got) <= 200 {
+		return fmt.Sprint(got)
+	}
+	return fmt.Sprintf("%v ... (%d values) ... %v", got[:50], len(got), got[len(got)-50:])
+}
 
 func execPipe(t *testing.T, w WL, cfg simrt.Config) simh.Outcome {
 	var (
@@ -713,13 +726,17 @@ func execPipe(t *testing.T, w WL, cfg simrt.Config) simh.Outcome {
 	if res.Infra != "" || res.Panic != "" || res.Hang || res.Livelock {
 		return o
 	}
-	o.Sample = map[string]any{"received": fmt.Sprint(got), "closed_seen": sawClosed}
+	if len(got) <= 2000 {
+		o.Sample = map[string]any{"received": fmt.Sprint(got), "closed_seen": sawClosed}
+	} else {
+		o.Sample = map[string]any{"received_count": len(got), "closed_seen": sawClosed}
+	}
 	cancelled := res.Faults["cancel"] > 0
 	// per-writer order, no duplicates
 	next := make([]int, len(w.Writers))
 	for _, v := range got {
 		if v.W < 0 || v.W >= len(next) || v.I != next[v.W] {
-			o.Class, o.Detail = "oracle:pipe_order", fmt.Sprintf("reader received %v; writer %d's next value should have been %d", got, v.W, next[min(max(v.W, 0), len(next)-1)])
+			o.Class, o.Detail = "oracle:pipe_order", fmt.Sprintf("reader received %v; writer %d's next value should have been %d", shortPV(got), v.W, next[min(max(v.W, 0), len(next)-1)])
 			return o
 		}
 		next[v.W]++
@@ -739,7 +756,7 @@ func execPipe(t *testing.T, w WL, cfg simrt.Config) simh.Outcome {
 				total += n
 			}
 			if len(got) != total {
-				o.Class, o.Detail = "oracle:pipe_lost", fmt.Sprintf("%d values submitted, %d received before the reader channel closed: %v", total, len(got), got)
+				o.Class, o.Detail = "oracle:pipe_lost", fmt.Sprintf("%d values submitted, %d received before the reader channel closed: %v", total, len(got), shortPV(got))
 				return o
 			}
 			if !sawClosed {
@@ -751,6 +768,12 @@ func execPipe(t *testing.T, w WL, cfg simrt.Config) simh.Outcome {
 	}
 	if w.Reader == "late" && !cancelled {
 		counters["pipe_writers_finished_before_first_read"]++
+		if len(w.Writers) == 1 && w.Writers[0] > 1<<14 {
+			counters["pipe_backlog_over_16384_before_first_read"]++
+		}
+		if len(w.Writers) == 1 && w.Writers[0] > 1<<16 {
+			counters["pipe_backlog_over_65536_before_first_read"]++
+		}
 	}
 	return o
 }
@@ -773,11 +796,13 @@ func shrink(w WL) []WL {
 	var res []WL
 	if w.Mode == "pipe" {
 		for i, n := range w.Writers {
-			if n > 1 {
-				c := w
-				c.Writers = append([]int{}, w.Writers...)
-				c.Writers[i] = n - 1
-				res = append(res, c)
+			for _, m := range []int{n / 2, n - n/4, n - n/16, n - 1} {
+				if m >= 1 && m < n {
+					c := w
+					c.Writers = append([]int{}, w.Writers...)
+					c.Writers[i] = m
+					res = append(res, c)
+				}
 			}
 		}
 		if len(w.Writers) > 1 {
@@ -833,6 +858,17 @@ func TestSim(t *testing.T) {
 		Tune: func(w WL, cfg *simrt.Config) {
 			cfg.MaxSteps = 60000
 			cfg.FairSteps = 60000
+			if w.Mode == "pipe" {
+				// the step budget follows the backlog: a value costs a bounded number of steps on its way through
+				// the pipe (measured < 10), so this only ends runs that really make no progress
+				n := 0
+				for _, k := range w.Writers {
+					n += k
+				}
+				if n > 4000 {
+					cfg.FairSteps = 60000 + 40*n
+				}
+			}
 			if cfg.SiteSample == 0 {
 				// function-entry scheduling points inside package query (criteria construction)
 				cfg.SiteSample = []float64{0.05, 0.2, 0.5, 1}[cfg.Seed%4]
